@@ -28,7 +28,7 @@ Variable um : list mline.
 Lemma point_spec s :
   exists r s', point um s = (r, s') /\ tabs_eq s s' /\ stk s s' /\ ctl (sp_point um (fault s)) r s'.
 Proof.
-  unfold point, sp_point. destruct (fault s) as [[|k]|]; eexists; eexists; (split; [reflexivity|]);
+  unfold point, sp_point. destruct (fault s) as [[|k]|] eqn:Ef; eexists; eexists; (split; [reflexivity|]);
     (split; [constructor; reflexivity|]); (split; [split; reflexivity|]); cbn [ctl fault set_fault]; eauto.
 Qed.
 
@@ -69,5 +69,740 @@ Proof.
   rewrite Hm. split.
   - destruct r; reflexivity.
   - split; sst; [exact K1|]. rewrite K2. sst. apply rem1_tok_cons.
+Qed.
+
+(* ---------- _render_impl up to the registration of the callback ---------- *)
+Definition prep_bits (vis : list N) (id : N) (s : st) (t : tab) (x : N) : bool :=
+  bit t x s || (N.eqb x id &&
+     match t with
+     | TCctx => true
+     | TAll => negb (match pcache s with [] => true | _ => false end)
+     | TRef P => negb (match pcache s with [] => true | _ => false end) && mem P vis
+     | _ => false
+     end).
+
+Lemma prep_impl_spec owner parent vis np s :
+  PI s -> below s ->
+  (forall p, parent = Some p -> bit TCctx p s = true) ->
+  (forall P, In P vis -> amem P (prefs s) = true) ->
+  exists r s', prep_impl C um owner parent vis np s = (r, s') /\ stk s s' /\
+    match sp_points um np (fault s) with
+    | SExn e => r = Exn e /\ fault s' = None /\ tabs_eq (set_next (N.succ (next s)) s) s'
+    | SOk k => r = Val (next s) /\ fault s' = k /\ next s' = N.succ (next s) /\ PI s' /\ cbs s' = cbs s /\
+               (forall P, mem P (pcache s') = mem P (pcache s)) /\ (forall P, amem P (prefs s') = amem P (prefs s)) /\
+               (forall t x, bit t x s' = prep_bits vis (next s) s t x)
+    end.
+Proof.
+  intros HPI HB Hpar Hvis.
+  unfold prep_impl. cbn [late_register C].
+  set (tok := next s).
+  (* the guarded part *)
+  set (inner := (id <- fresh;; check_parent parent;; ret tt;; with_meta C tok (points um np);; ret tok) : M N).
+  assert (Hinner : exists r1 s1, (id <- fresh;; check_parent parent;; ret tt;; with_meta C id (points um np);; ret id)
+                     (up_rctx (cons (owner, tok)) s) = (r1, s1) /\ stk (up_rctx (cons (owner, tok)) s) s1 /\
+                     tabs_eq (set_next (N.succ (next s)) s) s1 /\
+                     match sp_points um np (fault s) with
+                     | SExn e => r1 = Exn e /\ fault s1 = None
+                     | SOk k => r1 = Val tok /\ fault s1 = k
+                     end).
+  { unfold bind at 1. unfold fresh. sst.
+    unfold bind at 1. unfold check_parent.
+    assert (Hcp : match parent with Some p => mem p (cctx s) = true | None => True end).
+    { destruct parent as [p|]; [apply (Hpar p eq_refl) | exact I]. }
+    set (sa := set_next (N.succ (next s)) (up_rctx (cons (owner, tok)) s)).
+    assert (Hchk : (match parent with
+                    | Some p => if mem p (cctx sa) then (Val tt, sa) else (Exn (EInternal KParent), sa)
+                    | None => (Val tt, sa) end) = (Val tt, sa)).
+    { destruct parent as [p|]; [| reflexivity]. unfold sa. sst. rewrite Hcp. reflexivity. }
+    fold tok. fold sa. rewrite Hchk.
+    unfold bind at 1. unfold ret at 1.
+    destruct (points_spec np (up_meta (cons tok) sa)) as [rp [sp [Hp [Ep [Kp Cp]]]]].
+    destruct (with_meta_run tok (points um np) sa rp sp Hp Kp) as [Hwm Kwm].
+    unfold bind at 1. rewrite Hwm.
+    assert (Hf : fault (up_meta (cons tok) sa) = fault s) by reflexivity. rewrite Hf in Cp.
+    destruct (sp_points um np (fault s)) as [k|e]; cbn [ctl] in Cp.
+    - destruct Cp as [[[] Hr] Hfs]. subst rp. eexists. eexists. split; [reflexivity|].
+      split; [| split; [| split; [reflexivity | exact Hfs]]].
+      + eapply stk_trans; [| exact Kwm]. split; reflexivity.
+      + eapply tabs_eq_trans; [| eapply tabs_eq_trans; [exact Ep | apply tabs_eq_up_meta]].
+        constructor; reflexivity.
+    - destruct Cp as [Hr Hfs]. subst rp. eexists. eexists. split; [reflexivity|].
+      split; [| split; [| split; [reflexivity | exact Hfs]]].
+      + eapply stk_trans; [| exact Kwm]. split; reflexivity.
+      + eapply tabs_eq_trans; [| eapply tabs_eq_trans; [exact Ep | apply tabs_eq_up_meta]].
+        constructor; reflexivity. }
+  destruct Hinner as [r1 [s1 [Hin [Kin [Ein Cin]]]]].
+  destruct (with_rc_run owner tok _ s r1 s1 Hin Kin) as [Hrc Krc].
+  unfold bind at 1. fold tok. rewrite Hrc.
+  set (s2 := up_rctx (rem1_tok tok) s1) in *.
+  assert (E2 : tabs_eq (set_next (N.succ (next s)) s) s2).
+  { eapply tabs_eq_trans; [exact Ein | apply tabs_eq_up_rctx]. }
+  destruct (sp_points um np (fault s)) as [k|e].
+  - destruct Cin as [Hr Hfs]. subst r1.
+    (* registration *)
+    assert (P2 : PI s2).
+    { eapply tabs_eq_PI; [exact E2|]. destruct HPI; constructor; assumption. }
+    destruct (register_spec vis tok s2 P2) as [s3 [Hreg [P3 [R3 [Kc3 [Kp3 B3]]]]]].
+    { intros P HP. rewrite (te_prefs _ _ E2). sst. auto. }
+    unfold bind at 1. unfold bind at 1. rewrite Hreg. unfold modify, ret.
+    eexists. eexists. split; [reflexivity|]. split.
+    { destruct Krc as [K1 K2]. split; sst; [rewrite (sr_meta _ _ R3) | rewrite (sr_rctx _ _ R3)]; assumption. }
+    split; [reflexivity|]. split; [sst; rewrite (sr_fault _ _ R3); exact Hfs|].
+    split; [sst; rewrite (sr_next _ _ R3), (te_next _ _ E2); reflexivity|].
+    split; [destruct P3; constructor; assumption|].
+    split; [sst; rewrite (sr_cbs _ _ R3), (te_cbs _ _ E2); reflexivity|].
+    split; [intro P; sst; rewrite Kc3, (te_pcache _ _ E2); reflexivity|].
+    split; [intro P; sst; rewrite Kp3, (te_prefs _ _ E2); reflexivity|].
+    intros t x. unfold prep_bits. fold tok.
+    pose proof (tabs_eq_bit _ _ E2) as B2.
+    assert (Hpc : pcache s2 = pcache s) by (rewrite (te_pcache _ _ E2); reflexivity).
+    destruct t; sb.
+    + rewrite mem_sadd. change (mem x (cctx s3)) with (bit TCctx x s3). rewrite B3, B2. sb.
+      rewrite andb_false_r, orb_false_r, andb_true_r. apply orb_comm.
+    + change (mem x (rend s3)) with (bit TRend x s3). rewrite B3, B2. sb. rewrite !andb_false_r. reflexivity.
+    + change (mem x (cattrs s3)) with (bit TCattrs x s3). rewrite B3, B2. sb. rewrite !andb_false_r. reflexivity.
+    + change (mem x (allrefs s3)) with (bit TAll x s3). rewrite B3, B2, Hpc. sb. rewrite andb_true_r. reflexivity.
+    + change (mem x (aget P (prefs s3))) with (bit (TRef P) x s3). rewrite B3, B2, Hpc. sb.
+      rewrite andb_assoc. reflexivity.
+  - destruct Cin as [Hr Hfs]. subst r1. eexists. eexists. split; [reflexivity|].
+    split; [exact Krc|]. split; [reflexivity|]. split; [exact Hfs | exact E2].
+Qed.
+
+Lemma step_next_bump ro R s s' :
+  PI s -> below s -> tabs_eq (set_next (N.succ (next s)) s) s' -> step ro R s s'.
+Proof.
+  intros HPI HB E.
+  assert (E0 : tabs_eq s (set_next (next s) s)) by (constructor; reflexivity).
+  pose proof (tabs_eq_bit _ _ E) as Bs. sst in Bs.
+  assert (Hn : next s' = N.succ (next s)) by (rewrite (te_next _ _ E); reflexivity).
+  assert (Hc : cbs s' = cbs s) by (rewrite (te_cbs _ _ E); reflexivity).
+  assert (Bs' : forall t x, bit t x s' = bit t x s).
+  { intros t x. rewrite Bs. destruct t; reflexivity. }
+  constructor.
+  - eapply tabs_eq_PI; [exact E|]. destruct HPI; constructor; assumption.
+  - intros x Hx. rewrite Hn in Hx. assert (Hx' : next s <= x) by lia.
+    destruct (HB x Hx') as [F1 F2 F3 F4 F5]. constructor.
+    + intro t. rewrite Bs'. apply F1.
+    + rewrite (te_pcache _ _ E). exact F2.
+    + rewrite (te_prefs _ _ E). exact F3.
+    + rewrite Hc. exact F4.
+    + intro k. rewrite Hc. apply F5.
+  - rewrite Hn. lia.
+  - intros x Hx HR t. apply Bs'.
+  - intros x Hx t. rewrite Bs'. auto.
+  - intros x Hx t Ht. rewrite Bs' in Ht. rewrite (fr_bit x s (HB x Hx) t) in Ht. discriminate.
+  - intros x Hx. rewrite Bs'. apply (fr_bit x s (HB x Hx)).
+  - intros k Hk. rewrite Hc. reflexivity.
+  - intros r x Hr. rewrite Hc. auto.
+  - intros r x Hr. rewrite Hc. auto.
+Qed.
+
+Lemma alive_lt s P : below s -> amem P (prefs s) = true -> P < next s.
+Proof.
+  intros HB H. destruct (N.lt_ge_cases P (next s)) as [Hlt|Hge]; [exact Hlt|].
+  rewrite (fr_prefs P s (HB P Hge)) in H. discriminate.
+Qed.
+
+(* ---------- Component._render of a nested component: prepare it and leave a placeholder ---------- *)
+Lemma child_prep_spec e rootel up vis name np s :
+  PI s -> below s -> e_anc e <> [] -> ANC (e_anc e) s -> e_root e < next s ->
+  (forall P, In P vis -> In P (e_avail e)) -> AV (e_avail e) s ->
+  exists res s', child_prep C um e rootel up vis name np s = (res, s') /\
+    step (Some (e_root e)) NoR s s' /\ stk s s' /\
+    ctl (sp_map (annotate C [LName name]) (sp_points um np (fault s))) res s' /\
+    forall infos, res = Val infos ->
+      exists inf, infos = [inf] /\ i_id inf = next s /\ good_info (e_root e) s' inf.
+Proof.
+  intros HPI HB Hanc HANC Hr Hvis HAV.
+  assert (Halive : forall P, In P vis -> amem P (prefs s) = true /\ mem P (pcache s) = true).
+  { intros P HP. eapply AV_alive; eauto. }
+  destruct (prep_impl_spec (hd_error (e_anc e)) (nth_clamp up (e_anc e)) vis np s HPI HB)
+    as [r1 [s1 [Hrun [K1 Hres]]]].
+  { intros p Hp. apply nth_clamp_In in Hp. apply (HANC p Hp). }
+  { intros P HP. apply (Halive P HP). }
+  unfold child_prep, wrap, map_exn. unfold bind at 1. rewrite Hrun.
+  destruct (sp_points um np (fault s)) as [k|ex]; cbn [sp_map ctl].
+  - destruct Hres as [Hr1 [Hf [Hn [P1 [Hc [Kc [Kp B1]]]]]]]. subst r1.
+    unfold bind, modify, ret.
+    set (id := next s) in *. set (r := e_root e) in *.
+    eexists. eexists. split; [reflexivity|].
+    assert (Hvlt : forall P, In P vis -> P < id).
+    { intros P HP. apply alive_lt; [exact HB | apply (Halive P HP)]. }
+    assert (Hidvis : mem id vis = false).
+    { destruct (mem id vis) eqn:E; [| reflexivity]. apply mem_In in E. apply Hvlt in E. lia. }
+    assert (Bf : forall t x, bit t x (up_rend (sadd id) (up_cbs (addref r id) s1)) =
+                             prep_bits vis id s t x || (N.eqb x id && match t with TRend => true | _ => false end)).
+    { intros t x. destruct t; sb; try (rewrite <- (B1 _ x); sb; rewrite ?andb_false_r, ?orb_false_r; reflexivity).
+      rewrite mem_sadd. rewrite <- (B1 TRend x). sb. rewrite andb_true_r. apply orb_comm. }
+    assert (Hfresh : forall t x, id <= x -> bit t x s = false) by (intros t x Hx; apply (fr_bit x s (HB x Hx))).
+    assert (Hne : forall x, x <> id -> forall t, bit t x (up_rend (sadd id) (up_cbs (addref r id) s1)) = bit t x s).
+    { intros x Hx t. rewrite Bf. unfold prep_bits. apply N.eqb_neq in Hx. rewrite Hx. sst.
+      rewrite !orb_false_r. reflexivity. }
+    split; [| split; [| split]].
+    + constructor.
+      * destruct P1; constructor; assumption.
+      * intros x Hx. sst in Hx. rewrite Hn in Hx. assert (Hx' : id <= x) by lia. assert (Hxne : x <> id) by lia.
+        destruct (HB x Hx') as [F1 F2 F3 F4 F5]. constructor.
+        -- intro t. rewrite (Hne x Hxne). apply F1.
+        -- sst. rewrite Kc. exact F2.
+        -- sst. rewrite Kp. exact F3.
+        -- sst. rewrite amem_addref, Hc, F4. assert (x <> r) by lia. apply N.eqb_neq in H. rewrite H. reflexivity.
+        -- intro k'. sst. rewrite aget_addref, Hc. destruct (N.eqb k' r); [| apply F5].
+           rewrite mem_sadd, F5. apply N.eqb_neq in Hxne. rewrite Hxne. reflexivity.
+      * sst. rewrite Hn. lia.
+      * intros x Hx _ t. apply Hne. lia.
+      * intros x Hx t. rewrite Hne by lia. auto.
+      * intros x Hx t Ht. destruct (N.eq_dec x id) as [->|Hxne].
+        -- sst. rewrite aget_addref, N.eqb_refl, mem_sadd, N.eqb_refl. reflexivity.
+        -- rewrite (Hne x Hxne), (Hfresh t x Hx) in Ht. discriminate.
+      * intros x Hx. destruct (N.eq_dec x id) as [->|Hxne].
+        -- rewrite Bf. unfold prep_bits. rewrite (Hfresh _ id (N.le_refl _)), Hidvis. sst.
+           rewrite !andb_false_r. reflexivity.
+        -- rewrite (Hne x Hxne). apply Hfresh. exact Hx.
+      * intros k' Hk. sst. rewrite alookup_addref, Hc.
+        destruct (N.eqb k' r) eqn:E; [| reflexivity]. apply N.eqb_eq in E. subst k'. contradiction Hk. reflexivity.
+      * intros r' x Hr' Hm. inversion Hr'; subst r'. sst. rewrite aget_addref, N.eqb_refl, mem_sadd, Hc.
+        fold r. rewrite Hm. apply orb_true_r.
+      * intros r' x Hr' Hm. inversion Hr'; subst r'. sst in Hm. rewrite aget_addref, N.eqb_refl, mem_sadd, Hc in Hm.
+        apply orb_true_iff in Hm. destruct Hm as [Hm|Hm].
+        -- right. apply N.eqb_eq in Hm. subst x. apply N.le_refl.
+        -- left. exact Hm.
+    + destruct K1 as [Ka Kb]. split; sst; assumption.
+    + split; [eauto | sst; exact Hf].
+    + intros infos Hi. inversion Hi; subst infos. eexists. split; [reflexivity|]. split; [reflexivity|].
+      constructor; cbn [i_id i_vis].
+      * sst. rewrite Hn. lia.
+      * rewrite Bf. sst. rewrite N.eqb_refl. apply orb_true_r.
+      * rewrite Bf. unfold prep_bits. rewrite N.eqb_refl. sst. rewrite orb_true_r. reflexivity.
+      * sst. rewrite aget_addref, N.eqb_refl, mem_sadd, N.eqb_refl. reflexivity.
+      * intros P HP. rewrite Bf. unfold prep_bits. rewrite N.eqb_refl. sst.
+        assert (Hm : mem P vis = true) by (apply mem_In; exact HP). rewrite Hm.
+        destruct (pcache s) as [|q pc] eqn:Epc.
+        -- destruct (Halive P HP) as [_ Hpc]. try rewrite Epc in Hpc. discriminate Hpc.
+        -- sst. rewrite !orb_true_r. reflexivity.
+  - destruct Hres as [Hr1 [Hf Et]]. subst r1. eexists. eexists. split; [reflexivity|].
+    split; [apply step_next_bump; assumption|]. split; [exact K1|]. split; [split; [reflexivity | exact Hf]|].
+    intros infos Hi. discriminate Hi.
+Qed.
+
+(* ---------- what the two passes over a template's items guarantee ---------- *)
+Definition istop (e : env) : bool := match e_anc e with [] => true | _ => false end.
+
+Definition prep_ok (sp : bool -> option nat -> sres) (nk : bool -> nat) (m : env -> M (list info)) : Prop :=
+  forall e s, PI s -> below s -> AV (e_avail e) s -> ANC (e_anc e) s ->
+    (forall r, eroot e = Some r -> r < next s) ->
+    exists res s', m e s = (res, s') /\
+      step (eroot e) NoR s s' /\ stk s s' /\ ctl (sp (istop e) (fault s)) res s' /\
+      forall infos, res = Val infos ->
+        length infos = nk (istop e) /\ NoDup (map i_id infos) /\
+        Forall (fun inf => next s <= i_id inf /\ forall r, eroot e = Some r -> good_info r s' inf) infos.
+
+Definition defer_ok (sp : list lbl -> option nat -> sres) (nk : nat)
+    (m : env -> list lbl -> list info -> M (list info)) : Prop :=
+  forall e path infos s, PI s -> below s -> e_anc e <> [] -> ANC (e_anc e) s -> e_root e < next s ->
+    Forall (good_info (e_root e) s) infos -> NoDup (map i_id infos) -> (nk <= length infos)%nat ->
+    (forall a, In a (e_anc e) -> ~ In a (map i_id infos)) ->
+    exists res s', m e path infos s = (res, s') /\
+      step (Some (e_root e)) (fun x => In x (map i_id infos)) s s' /\ stk s s' /\ ctl (sp path (fault s)) res s' /\
+      forall rest, res = Val rest ->
+        exists used, infos = used ++ rest /\ length used = nk /\
+          (forall x, In x (map i_id rest) -> forall t, bit t x s' = bit t x s).
+
+Lemma bind_val {A B} (m : M A) (f : A -> M B) s a s1 : m s = (Val a, s1) -> bind m f s = f a s1.
+Proof. intro H. unfold bind. rewrite H. reflexivity. Qed.
+Lemma bind_exn {A B} (m : M A) (f : A -> M B) s e s1 : m s = (Exn e, s1) -> bind m f s = (Exn e, s1).
+Proof. intro H. unfold bind. rewrite H. reflexivity. Qed.
+
+(* ---------- {% provide %} around a piece of template ---------- *)
+Lemma provide_prep_ok sp nk m :
+  prep_ok sp nk m ->
+  prep_ok sp nk (fun e => provide (fun pid => m (mkEnv (e_avail e ++ [pid]) (e_anc e) (e_root e)))).
+Proof.
+  intros Hm e s HPI HB HAV HANC Hroot.
+  set (pid := next s).
+  set (s1 := up_prefs (addref pid pid) (up_pcache (sadd pid) (set_next (N.succ pid) s))).
+  assert (Hfr : fresh_id pid s) by (apply HB; apply N.le_refl).
+  assert (Hagp : aget pid (prefs s) = []).
+  { unfold aget. pose proof (fr_prefs pid s Hfr) as H. apply amem_false_alookup in H. rewrite H. reflexivity. }
+  assert (B1 : forall t x, bit t x s1 = bit t x s || (N.eqb x pid && match t with TRef P => N.eqb P pid | _ => false end)).
+  { intros t x. destruct t; unfold s1; sb; rewrite ?andb_false_r, ?orb_false_r; try reflexivity.
+    rewrite aget_addref. destruct (N.eqb P pid) eqn:E.
+    - apply N.eqb_eq in E. subst P. rewrite mem_sadd, Hagp. cbn [mem existsb].
+      destruct (N.eqb x pid); reflexivity.
+    - rewrite andb_false_r, orb_false_r. reflexivity. }
+  assert (P1 : PI s1).
+  { destruct HPI as [I1 I2 I3 I4]. constructor; unfold s1; sst.
+    - apply NoDup_keys_addref. exact I1.
+    - intro P. rewrite amem_addref, mem_sadd, I2. reflexivity.
+    - intros P l Hl. rewrite alookup_addref in Hl. destruct (N.eqb P pid); [| eauto].
+      inversion Hl. rewrite Hagp. discriminate.
+    - intros P x Hx. rewrite aget_addref in Hx. destruct (N.eqb P pid) eqn:E; [| eauto].
+      apply N.eqb_eq in E. subst P. rewrite Hagp in Hx. cbn in Hx. rewrite orb_false_r in Hx.
+      apply N.eqb_eq in Hx. left. exact Hx. }
+  assert (Hn1 : next s1 = N.succ pid) by reflexivity.
+  assert (HB1 : below s1).
+  { intros x Hx. rewrite Hn1 in Hx. assert (Hx' : next s <= x) by (fold pid; lia).
+    assert (Hne : N.eqb x pid = false) by (apply N.eqb_neq; lia).
+    destruct (HB x Hx') as [F1 F2 F3 F4 F5]. constructor.
+    - intro t. rewrite B1, F1, Hne. reflexivity.
+    - unfold s1. sst. rewrite mem_sadd, Hne, F2. reflexivity.
+    - unfold s1. sst. rewrite amem_addref, Hne, F3. reflexivity.
+    - exact F4.
+    - exact F5. }
+  set (e1 := mkEnv (e_avail e ++ [pid]) (e_anc e) (e_root e)).
+  assert (Hero : eroot e1 = eroot e) by reflexivity.
+  assert (Hist : istop e1 = istop e) by reflexivity.
+  destruct (Hm e1 s1 P1 HB1) as [res [s2 [Hrun [A [K [Cc HQ]]]]]].
+  { intros P HP. cbn [e_avail e1] in HP. apply in_app_or in HP. destruct HP as [HP|[HP|[]]].
+    - destruct (HAV P HP) as [a [Ha Hb]]. exists a. split; [rewrite Hn1; fold pid in Ha; lia|].
+      rewrite B1, Hb. reflexivity.
+    - subst P. exists pid. split; [rewrite Hn1; lia|]. rewrite B1, !N.eqb_refl. apply orb_true_r. }
+  { intros a Ha. destruct (HANC a Ha) as [Hlt Hb]. split; [rewrite Hn1; fold pid in Hlt; lia|].
+    rewrite B1, Hb. reflexivity. }
+  { intros r Hr. rewrite Hero in Hr. specialize (Hroot r Hr). rewrite Hn1. fold pid in Hroot. lia. }
+  rewrite Hero in A. rewrite Hist in Cc.
+  assert (Hf1 : fault s1 = fault s) by reflexivity. rewrite Hf1 in Cc.
+  assert (K1 : stk s s1) by (split; reflexivity).
+  unfold provide. fold pid. fold s1. unfold e1 in Hrun. rewrite Hrun.
+  (* what happens after the body: only removals *)
+  assert (Hafter : exists s3, (match res with
+                     | Val a => (cache_cleanup pid;; ret a) s2
+                     | Exn ex => (unregister_all (sdiff (allrefs s2) (allrefs (up_pcache (sadd pid) (set_next (N.succ pid) s))));;
+                                  cache_cleanup pid;; raise ex) s2
+                     end) = (res, s3) /\ PI s3 /\ same_rest s2 s3 /\ keys_shrink s2 s3 /\
+                     (forall t x, bit t x s3 = true -> bit t x s2 = true) /\
+                     (forall x, x <> pid -> (x < next s1 \/ exists a, res = Val a) -> forall t, bit t x s3 = bit t x s2) /\
+                     bit (TRef pid) pid s3 = false).
+  { pose proof (st_pi _ _ _ _ A) as P2.
+    destruct res as [a|ex].
+    - destruct (cache_cleanup_spec pid s2 P2) as [s3 [Hc [P3 [R3 [Ks3 B3]]]]].
+      exists s3. split; [unfold bind; rewrite Hc; reflexivity|]. split; [exact P3|]. split; [exact R3|]. split; [exact Ks3|].
+      split; [| split].
+      + intros t x Ht. rewrite B3 in Ht. apply andb_true_iff in Ht. tauto.
+      + intros x Hx _ t. rewrite B3. apply N.eqb_neq in Hx. destruct t; rewrite ?andb_true_r; try reflexivity.
+        rewrite Hx, andb_false_r. sst. apply andb_true_r.
+      + rewrite B3, !N.eqb_refl. sst. apply andb_false_r.
+    - destruct (unregister_all_spec (sdiff (allrefs s2) (allrefs (up_pcache (sadd pid) (set_next (N.succ pid) s)))) s2 P2)
+        as [s2' [Hu [P2' [R2' [Ks2' B2']]]]].
+      destruct (cache_cleanup_spec pid s2' P2') as [s3 [Hc [P3 [R3 [Ks3 B3]]]]].
+      exists s3. split; [unfold bind; rewrite Hu, Hc; reflexivity|]. split; [exact P3|].
+      split; [eapply same_rest_trans; eauto|]. split; [eapply keys_shrink_trans; eauto|].
+      split; [| split].
+      + intros t x Ht. rewrite B3 in Ht. apply andb_true_iff in Ht. destruct Ht as [Ht _].
+        rewrite B2' in Ht. apply andb_true_iff in Ht. tauto.
+      + intros x Hx Hlt t. destruct Hlt as [Hlt|[a Ha]]; [| discriminate Ha].
+        rewrite B3, B2'. apply N.eqb_neq in Hx.
+        assert (Hd : mem x (sdiff (allrefs s2) (allrefs (up_pcache (sadd pid) (set_next (N.succ pid) s)))) = false).
+        { rewrite mem_sdiff. sst.
+          change (mem x (allrefs s2)) with (bit TAll x s2). change (mem x (allrefs s)) with (bit TAll x s).
+          rewrite (st_frozen _ _ _ _ A x Hlt (fun f => f) TAll), B1. sst. rewrite andb_false_r, orb_false_r.
+          destruct (bit TAll x s); reflexivity. }
+        rewrite Hd. sst. rewrite andb_true_r. destruct t; rewrite ?andb_true_r; try reflexivity.
+        rewrite Hx, andb_false_r. sst. apply andb_true_r.
+      + rewrite B3, !N.eqb_refl. sst. apply andb_false_r. }
+  destruct Hafter as [s3 [Hrun3 [P3 [R3 [Ks3 [Sh3 [Eq3 Own3]]]]]]].
+  exists res, s3. split.
+  { destruct res; exact Hrun3. }
+  assert (Hn3 : next s3 = next s2) by apply R3.
+  assert (Hc3 : cbs s3 = cbs s2) by apply R3.
+  assert (HB3 : below s3).
+  { eapply below_shrink; [apply (st_below _ _ _ _ A) | exact Hn3 | exact Hc3 | exact Ks3 | exact Sh3]. }
+  assert (Hc1 : cbs s1 = cbs s) by reflexivity.
+  assert (Hold : forall x, x < pid -> forall t, bit t x s3 = bit t x s).
+  { intros x Hx t. rewrite Eq3; [| lia | left; rewrite Hn1; lia].
+    rewrite (st_frozen _ _ _ _ A x); [| rewrite Hn1; lia | tauto].
+    rewrite B1. assert (Hne : N.eqb x pid = false) by (apply N.eqb_neq; lia). rewrite Hne. apply orb_false_r. }
+  assert (Hpid : forall t, bit t pid s3 = false).
+  { intro t. destruct (bit t pid s3) eqn:E; [| reflexivity]. pose proof E as E'. apply Sh3 in E'.
+    rewrite (st_frozen _ _ _ _ A pid) in E'; [| rewrite Hn1; lia | tauto].
+    rewrite B1, (fr_bit pid s Hfr), N.eqb_refl in E'. sst in E'.
+    destruct t; try discriminate E'. apply N.eqb_eq in E'. subst P. rewrite Own3 in E. discriminate. }
+  split.
+  { constructor.
+    - exact P3.
+    - exact HB3.
+    - rewrite Hn3. pose proof (st_next _ _ _ _ A) as H. rewrite Hn1 in H. fold pid. lia.
+    - intros x Hx _ t. apply Hold. exact Hx.
+    - intros x Hx t Ht. rewrite Hold in Ht; auto.
+    - intros x Hx t Ht. fold pid in Hx. destruct (N.eq_dec x pid) as [->|Hne].
+      + rewrite Hpid in Ht. discriminate.
+      + rewrite Hc3. apply Sh3 in Ht. assert (Hx1 : next s1 <= x) by (rewrite Hn1; lia).
+        exact (st_logged _ _ _ _ A x Hx1 t Ht).
+    - intros x Hx. fold pid in Hx. destruct (N.eq_dec x pid) as [->|Hne].
+      + apply Hpid.
+      + destruct (bit (TRef x) x s3) eqn:E; [| reflexivity]. apply Sh3 in E.
+        rewrite (st_noown _ _ _ _ A x) in E; [discriminate | rewrite Hn1; lia].
+    - intros k Hk. rewrite Hc3, (st_cbs_other _ _ _ _ A k Hk), Hc1. reflexivity.
+    - intros r x Hr Hmm. rewrite Hc3. eapply (st_cbs_mono _ _ _ _ A); eauto.
+    - intros r x Hr Hmm. rewrite Hc3 in Hmm. destruct (st_cbs_new _ _ _ _ A r x Hr Hmm) as [H|H].
+      + left. rewrite Hc1 in H. exact H.
+      + right. rewrite Hn1 in H. fold pid. lia. }
+  split.
+  { eapply stk_trans; [exact K1|]. eapply stk_trans; [exact K|]. split; [apply R3 | apply R3]. }
+  split.
+  { destruct (sp (istop e) (fault s)) as [k|ex]; cbn [ctl] in *.
+    - destruct Cc as [Ha Hf]. split; [exact Ha|]. rewrite (sr_fault _ _ R3). exact Hf.
+    - destruct Cc as [Ha Hf]. split; [exact Ha|]. rewrite (sr_fault _ _ R3). exact Hf. }
+  intros infos Hi. destruct (HQ infos Hi) as [Hl [Hnd Hall]]. rewrite Hist in Hl.
+  split; [exact Hl|]. split; [exact Hnd|].
+  rewrite Forall_forall in *. intros inf Hinf. destruct (Hall inf Hinf) as [Hge Hgood]. rewrite Hn1 in Hge.
+  split; [fold pid; lia|]. intros r Hr. rewrite <- Hero in Hr. specialize (Hgood r Hr).
+  eapply good_info_bits; [exact Hgood | rewrite Hn3; apply N.le_refl | exact Hc3 |].
+  intros t _. apply Eq3; [lia | right; eauto].
+Qed.
+
+(* ---------- one component in the post-render queue ---------- *)
+Lemma map_exn_run {A} (m : M A) h s r s1 :
+  m s = (r, s1) -> map_exn m h s = (match r with Val a => Val a | Exn e => Exn (h e) end, s1).
+Proof. intro H. unfold map_exn. rewrite H. destruct r; reflexivity. Qed.
+
+Lemma deferred_core_spec spp nkp spd nkd rp rd anc root path name inf s :
+  prep_ok spp nkp rp -> defer_ok spd nkd rd -> nkp false = nkd ->
+  PI s -> below s -> ANC anc s -> root < next s -> good_info root s inf -> ~ In (i_id inf) anc ->
+  exists (res : res unit) s', deferred_core C um anc root path name inf rp rd s = (res, s') /\
+    step (Some root) (fun x => x = i_id inf) s s' /\ stk s s' /\
+    ctl (sp_deferred um path name (spp false) spd (fault s)) res s'.
+Proof.
+  intros Hp Hd Hnk HPI HB HANC Hroot Hgood Hnotanc.
+  destruct Hgood as [G1 G2 G3 G4 G5].
+  set (id := i_id inf) in *. set (full := path ++ [LName name]).
+  set (e' := mkEnv (i_vis inf) (id :: anc) root).
+  unfold deferred_core. fold id. fold full. fold e'.
+  (* the renderer is taken out of component_renderer_cache, the attributes out of child_component_attrs *)
+  set (sB := up_cattrs (srem id) (up_rend (srem id) s)).
+  cbn [bit] in G2, G3.
+  rewrite (bind_val _ _ s tt (up_rend (srem id) s)) by (cbv beta; rewrite G2; reflexivity).
+  rewrite (bind_val _ _ _ tt sB) by reflexivity.
+  assert (BB : forall t x, bit t x sB = bit t x s && negb (N.eqb x id && match t with TRend | TCattrs => true | _ => false end)).
+  { intros t x. destruct t; unfold sB; sb; rewrite ?andb_false_r, ?andb_true_r; try reflexivity;
+      rewrite mem_srem; apply andb_comm. }
+  assert (PB : PI sB) by (destruct HPI; constructor; assumption).
+  assert (SB : step (Some root) (fun x => x = id) s sB).
+  { apply step_of_shrink; auto.
+    - constructor; auto.
+    - intros t x Ht. rewrite BB in Ht. apply andb_true_iff in Ht. tauto.
+    - intros x Hx t. rewrite BB. apply N.eqb_neq in Hx. rewrite Hx. apply andb_true_r. }
+  assert (HBB : below sB) by apply SB.
+  assert (KB : stk s sB) by (split; reflexivity).
+  (* on_render_before *)
+  set (sM := up_meta (cons id) sB).
+  destruct (point_spec sM) as [r0 [s0 [Hpt [E0 [K0 C0]]]]].
+  assert (Hf0 : fault sM = fault s) by reflexivity. rewrite Hf0 in C0.
+  assert (EB0 : tabs_eq sB s0) by (eapply tabs_eq_trans; [apply tabs_eq_up_meta | exact E0]).
+  unfold sp_deferred. fold full.
+  destruct (sp_point um (fault s)) as [k0|ex0] eqn:Esp0; cbn [ctl] in C0.
+  2: { (* on_render_before raises *)
+    destruct C0 as [Hr0 Hf]. subst r0.
+    destruct (with_meta_run id (point um;; rp e') sB (Exn ex0) s0) as [Hwm Kwm].
+    { rewrite (bind_exn _ _ sM ex0 s0 Hpt). reflexivity. }
+    { exact K0. }
+    rewrite (bind_exn _ _ sB (annotate C (tl full) ex0) (up_meta (rem1 id) s0)).
+    2: { unfold wrap. rewrite (map_exn_run _ _ _ _ _ Hwm). reflexivity. }
+    eexists. eexists. split; [reflexivity|]. split; [| split].
+    - eapply step_tabs_eq; [apply tabs_eq_refl | | exact SB].
+      eapply tabs_eq_trans; [exact EB0 | apply tabs_eq_up_meta].
+    - eapply stk_trans; [exact KB | exact Kwm].
+    - cbn [sp_bind sp_map ctl]. split; [reflexivity | exact Hf]. }
+  destruct C0 as [[[] Hr0] Hf0']. subst r0.
+  (* the component's own template *)
+  assert (P0 : PI s0) by (eapply tabs_eq_PI; eauto).
+  assert (HB0 : below s0) by (eapply tabs_eq_below; eauto).
+  assert (B0 : forall t x, bit t x s0 = bit t x sB) by (apply tabs_eq_bit; exact EB0).
+  assert (Hn0 : next s0 = next s) by (rewrite (te_next _ _ EB0); reflexivity).
+  destruct (Hp e' s0 P0 HB0) as [r1 [s1 [Hrp [A1 [K1 [C1 Q1]]]]]].
+  { intros P HP. exists id. split; [rewrite Hn0; exact G1|]. rewrite B0, BB. cbn [e_avail e'] in HP.
+    rewrite (G5 P HP). rewrite andb_false_r. reflexivity. }
+  { intros a Ha. cbn [e_anc e'] in Ha. rewrite Hn0. destruct Ha as [<-|Ha].
+    - split; [exact G1|]. rewrite B0, BB. cbn [bit]. rewrite G3, andb_false_r. reflexivity.
+    - destruct (HANC a Ha) as [Hlt Hb]. split; [exact Hlt|]. rewrite B0, BB, Hb, andb_false_r. reflexivity. }
+  { intros r Hr. inversion Hr; subst r. rewrite Hn0. exact Hroot. }
+  assert (Hero : eroot e' = Some root) by reflexivity. rewrite Hero in A1.
+  assert (Hist : istop e' = false) by reflexivity. rewrite Hist, Hf0' in C1.
+  destruct (with_meta_run id (point um;; rp e') sB r1 s1) as [Hwm Kwm].
+  { rewrite (bind_val _ _ sM tt s0 Hpt). exact Hrp. }
+  { eapply stk_trans; [exact K0 | exact K1]. }
+  set (s1' := up_meta (rem1 id) s1) in *.
+  assert (E11 : tabs_eq s1 s1') by apply tabs_eq_up_meta.
+  assert (S1 : step (Some root) (fun x => x = id) s s1').
+  { eapply step_strengthen.
+    - eapply step_trans; [exact SB|]. eapply step_tabs_eq; [apply tabs_eq_sym; exact EB0 | exact E11 | exact A1].
+    - intros x _ [H|[]]. exact H. }
+  destruct (spp false k0) as [k1|ex1] eqn:Esp1; cbn [ctl] in C1.
+  2: { (* a callback inside the template raises *)
+    destruct C1 as [Hr1 Hf]. subst r1.
+    rewrite (bind_exn _ _ sB (annotate C (tl full) ex1) s1').
+    2: { unfold wrap. rewrite (map_exn_run _ _ _ _ _ Hwm). reflexivity. }
+    eexists. eexists. split; [reflexivity|]. split; [exact S1|]. split.
+    - eapply stk_trans; [exact KB | exact Kwm].
+    - cbn [sp_bind sp_map]. rewrite Esp1. cbn [sp_bind sp_map ctl]. split; [reflexivity | exact Hf]. }
+  destruct C1 as [[infos Hr1] Hf1]. subst r1.
+  destruct (Q1 infos eq_refl) as [Hlen [Hnd Hall]]. rewrite Hist in Hlen.
+  rewrite Forall_forall in Hall.
+  assert (Hgi : forall i, In i infos -> next s <= i_id i /\ good_info root s1 i).
+  { intros i Hi. destruct (Hall i Hi) as [Hge Hg]. split; [rewrite <- Hn0; exact Hge | apply Hg; reflexivity]. }
+  rewrite (bind_val _ _ sB infos s1').
+  2: { unfold wrap. rewrite (map_exn_run _ _ _ _ _ Hwm). reflexivity. }
+  (* child_component_attrs.update *)
+  set (sC := up_cattrs (fun l => fold_left (fun acc x => sadd x acc) (rootel_ids infos) l) s1').
+  rewrite (bind_val _ _ s1' tt sC) by reflexivity.
+  assert (Hroot_in : forall x, In x (rootel_ids infos) -> exists i, In i infos /\ x = i_id i).
+  { intros x Hx. unfold rootel_ids in Hx. apply in_map_iff in Hx. destruct Hx as [i [Hi1 Hi2]].
+    apply filter_In in Hi2. exists i. split; [tauto | auto]. }
+  assert (SC : step (Some root) (fun x => x = id) s sC).
+  { apply step_add_cattrs; [exact S1|]. intros x Hx. destruct (Hroot_in x Hx) as [i [Hi ->]].
+    destruct (Hgi i Hi) as [Hge Hg]. split; [exact Hge|]. split.
+    - unfold s1'. sst. apply Hg.
+    - unfold s1'. sst. apply Hg. }
+  assert (PC : PI sC) by apply SC. assert (HBC : below sC) by apply SC.
+  assert (Hn1 : next sC = next s1) by reflexivity.
+  assert (Hc1 : cbs sC = cbs s1) by reflexivity.
+  assert (HgC : Forall (good_info root sC) infos).
+  { rewrite Forall_forall. intros i Hi. destruct (Hgi i Hi) as [_ Hg].
+    eapply good_info_bits; [exact Hg | rewrite Hn1; apply N.le_refl | exact Hc1 |].
+    intros t Ht. destruct t; try reflexivity. contradiction Ht. reflexivity. }
+  assert (HidC : forall t, t <> TRend -> t <> TCattrs -> bit t id sC = bit t id s).
+  { intros t Ht1 Ht2. transitivity (bit t id s1').
+    - destruct t; try reflexivity. contradiction Ht2. reflexivity.
+    - transitivity (bit t id s1); [destruct t; reflexivity|].
+      rewrite (st_frozen _ _ _ _ A1 id); [| rewrite Hn0; exact G1 | tauto].
+      rewrite B0, BB. destruct t; rewrite ?andb_false_r, ?andb_true_r; try reflexivity; contradiction. }
+  assert (Hids_new : forall x, In x (map i_id infos) -> next s <= x).
+  { intros x Hx. apply in_map_iff in Hx. destruct Hx as [i [<- Hi]]. apply (Hgi i Hi). }
+  destruct (Hd e' full infos sC PC HBC) as [r2 [s2 [Hrd [A2 [K2 [C2 Q2]]]]]].
+  { discriminate. }
+  { intros a Ha. cbn [e_anc e'] in Ha. rewrite Hn1. pose proof (st_next _ _ _ _ A1) as Hle. rewrite Hn0 in Hle.
+    destruct Ha as [<-|Ha].
+    - split; [lia|]. rewrite HidC; [exact G3 | discriminate | discriminate].
+    - destruct (HANC a Ha) as [Hlt Hb]. split; [lia|].
+      assert (Hne : a <> id) by (intro; subst a; contradiction).
+      rewrite (st_frozen _ _ _ _ SC a Hlt Hne). exact Hb. }
+  { cbn [e_root e']. rewrite Hn1. pose proof (st_next _ _ _ _ A1) as Hle. rewrite Hn0 in Hle. lia. }
+  { exact HgC. }
+  { exact Hnd. }
+  { rewrite Hlen, Hnk. apply Nat.le_refl. }
+  { intros a Ha Hin. apply Hids_new in Hin. cbn [e_anc e'] in Ha. destruct Ha as [<-|Ha].
+    - lia.
+    - destruct (HANC a Ha). lia. }
+  cbn [e_root e'] in A2.
+  assert (Hfc : fault sC = k1) by (unfold sC, s1'; sst; exact Hf1). rewrite Hfc in C2.
+  assert (S2 : step (Some root) (fun x => x = id) s s2).
+  { eapply step_strengthen; [eapply step_trans; [exact SC | exact A2]|].
+    intros x Hx [H|H]; [exact H|]. apply Hids_new in H. lia. }
+  assert (KC : stk s sC).
+  { eapply stk_trans; [exact KB|]. eapply stk_trans; [exact Kwm|]. split; reflexivity. }
+  destruct (spd full k1) as [k2|ex2] eqn:Esp2; cbn [ctl] in C2.
+  2: { (* a child fails *)
+    destruct C2 as [Hr2 Hf]. subst r2.
+    rewrite (bind_exn _ _ sC ex2 s2 Hrd).
+    eexists. eexists. split; [reflexivity|]. split; [exact S2|]. split.
+    - eapply stk_trans; [exact KC | exact K2].
+    - cbn [sp_bind sp_map]. rewrite Esp1. cbn [sp_bind sp_map]. rewrite Esp2. cbn [sp_bind ctl].
+      split; [reflexivity | exact Hf]. }
+  destruct C2 as [[rest Hr2] Hf2]. subst r2.
+  rewrite (bind_val _ _ sC rest s2 Hrd).
+  (* the closing item: callback lookup, on_render_after, forget the component *)
+  assert (Hcb : mem id (aget root (cbs s2)) = true).
+  { eapply (st_cbs_mono _ _ _ _ S2); [reflexivity | exact G4]. }
+  rewrite (bind_val _ _ s2 tt s2) by (cbv beta; rewrite Hcb; reflexivity).
+  destruct (point_spec (up_meta (cons id) s2)) as [r3 [s3 [Hpt3 [E3 [K3 C3]]]]].
+  assert (Hf3 : fault (up_meta (cons id) s2) = k2) by (sst; exact Hf2). rewrite Hf3 in C3.
+  destruct (with_meta_run id (point um) s2 r3 s3 Hpt3 K3) as [Hwm3 Kwm3].
+  set (s3' := up_meta (rem1 id) s3) in *.
+  assert (E23 : tabs_eq s2 s3').
+  { eapply tabs_eq_trans; [apply tabs_eq_up_meta|]. eapply tabs_eq_trans; [exact E3 | apply tabs_eq_up_meta]. }
+  assert (S3 : step (Some root) (fun x => x = id) s s3').
+  { eapply step_tabs_eq; [apply tabs_eq_refl | exact E23 | exact S2]. }
+  assert (K23 : stk s s3') by (eapply stk_trans; [eapply stk_trans; [exact KC | exact K2] | exact Kwm3]).
+  destruct (sp_point um k2) as [k3|ex3] eqn:Esp3; cbn [ctl] in C3.
+  2: { destruct C3 as [Hr3 Hf]. subst r3.
+    rewrite (bind_exn _ _ s2 ex3 s3' Hwm3).
+    eexists. eexists. split; [reflexivity|]. split; [exact S3|]. split; [exact K23|].
+    cbn [sp_bind sp_map]. rewrite Esp1. cbn [sp_bind sp_map]. rewrite Esp2. cbn [sp_bind]. rewrite Esp3. cbn [ctl].
+    split; [reflexivity | exact Hf]. }
+  destruct C3 as [[[] Hr3] Hf3']. subst r3.
+  rewrite (bind_val _ _ s2 tt s3' Hwm3).
+  assert (Hcc : mem id (cctx s3') = true).
+  { change (bit TCctx id s3' = true). rewrite (tabs_eq_bit _ _ E23).
+    assert (Hnin : ~ In id (map i_id infos)) by (intro H; apply Hids_new in H; lia).
+    rewrite (st_frozen _ _ _ _ A2 id); [| rewrite Hn1; pose proof (st_next _ _ _ _ A1); lia | exact Hnin].
+    rewrite HidC; [exact G3 | discriminate | discriminate]. }
+  set (sD := up_cctx (srem id) s3').
+  rewrite (bind_val _ _ s3' tt sD) by (cbv beta; rewrite Hcc; reflexivity).
+  assert (P3 : PI s3') by apply S3.
+  assert (PD : PI sD) by (destruct P3; constructor; assumption).
+  destruct (unregister_spec id sD PD) as [s4 [Hun [P4 [R4 [Ks4 B4]]]]].
+  rewrite Hun.
+  eexists. eexists. split; [reflexivity|]. split; [| split].
+  - eapply step_strengthen; [eapply step_trans; [exact S3|]|].
+    + apply (step_of_shrink (Some root) (fun x => x = id) s3' s4); auto.
+      * apply S3.
+      * rewrite (sr_next _ _ R4). reflexivity.
+      * rewrite (sr_cbs _ _ R4). reflexivity.
+      * destruct Ks4 as [Ka Kb]. constructor; [exact Ka | exact Kb].
+      * intros t x Ht. rewrite B4 in Ht. apply andb_true_iff in Ht. destruct Ht as [Ht _].
+        destruct t; unfold sD in Ht; cbn [bit] in *; sst in Ht; try exact Ht.
+        rewrite mem_srem in Ht. apply andb_true_iff in Ht. tauto.
+      * intros x Hx t. rewrite B4. apply N.eqb_neq in Hx. rewrite Hx. sst. rewrite andb_true_r.
+        destruct t; unfold sD; cbn [bit]; sst; try reflexivity. rewrite mem_srem, Hx. reflexivity.
+    + intros x _ [H|H]; exact H.
+  - eapply stk_trans; [exact K23|]. split; [rewrite (sr_meta _ _ R4) | rewrite (sr_rctx _ _ R4)]; reflexivity.
+  - cbn [sp_bind sp_map]. rewrite Esp1. cbn [sp_bind sp_map]. rewrite Esp2. cbn [sp_bind]. rewrite Esp3. cbn [ctl].
+    split; [eauto|].
+    rewrite (sr_fault _ _ R4). unfold sD. sst. exact Hf3'.
+Qed.
+
+(* ---------- Component._render of a root component: everything it allocates is gone afterwards ---------- *)
+Lemma try_finally_run {A} (m : M A) (h : M unit) s r s1 s2 :
+  m s = (r, s1) -> h s1 = (Val tt, s2) -> try_finally m h s = (r, s2).
+Proof. intros H1 H2. unfold try_finally. rewrite H1. destruct r; rewrite H2; reflexivity. Qed.
+
+Lemma root_core_spec ro spp nkp spd nkd rp rd owner vis name np s :
+  prep_ok spp nkp rp -> defer_ok spd nkd rd -> nkp false = nkd ->
+  PI s -> below s -> AV vis s ->
+  exists (res : res unit) s', root_core C um owner vis name np rp rd s = (res, s') /\
+    step ro NoR s s' /\ stk s s' /\
+    ctl (sp_map (annotate C [LName name])
+           (sp_bind (sp_points um np (fault s)) (sp_deferred um [] name (spp false) spd))) res s'.
+Proof.
+  intros Hp Hd Hnk HPI HB HAV.
+  assert (Halive : forall P, In P vis -> amem P (prefs s) = true /\ mem P (pcache s) = true).
+  { intros P HP. eapply AV_alive; eauto. }
+  destruct (prep_impl_spec owner None vis np s HPI HB) as [r1 [s1 [Hrun [K1 Hres]]]].
+  { intros p Hp'. discriminate. }
+  { intros P HP. apply (Halive P HP). }
+  unfold root_core, wrap. cbn [root_purge C].
+  destruct (sp_points um np (fault s)) as [k|ex]; cbn [sp_bind sp_map].
+  2: { destruct Hres as [Hr1 [Hf Et]]. subst r1.
+    erewrite map_exn_run; [| rewrite (bind_exn _ _ s ex s1 Hrun); reflexivity].
+    eexists. eexists. split; [reflexivity|]. split; [apply step_next_bump; assumption|].
+    split; [exact K1|]. cbn [ctl]. split; [reflexivity | exact Hf]. }
+  destruct Hres as [Hr1 [Hf [Hn [P1 [Hc [Kc [Kp B1]]]]]]]. subst r1.
+  set (id := next s) in *.
+  set (inf := mkInfo id vis false).
+  set (sR := up_rend (sadd id) (up_cbs (addref id id) s1)).
+  assert (Hvlt : forall P, In P vis -> P < id).
+  { intros P HP. apply alive_lt; [exact HB | apply (Halive P HP)]. }
+  assert (Hidvis : mem id vis = false).
+  { destruct (mem id vis) eqn:E; [| reflexivity]. apply mem_In in E. apply Hvlt in E. lia. }
+  assert (Hfr : fresh_id id s) by (apply HB; apply N.le_refl).
+  assert (Bf : forall t x, bit t x sR =
+                 prep_bits vis id s t x || (N.eqb x id && match t with TRend => true | _ => false end)).
+  { intros t x. destruct t; unfold sR; sb; try (rewrite <- (B1 _ x); sb; rewrite ?andb_false_r, ?orb_false_r; reflexivity).
+    rewrite mem_sadd. rewrite <- (B1 TRend x). sb. rewrite andb_true_r. apply orb_comm. }
+  assert (Hfresh : forall t x, id <= x -> bit t x s = false) by (intros t x Hx; apply (fr_bit x s (HB x Hx))).
+  assert (Hne : forall x, x <> id -> forall t, bit t x sR = bit t x s).
+  { intros x Hx t. rewrite Bf. unfold prep_bits. apply N.eqb_neq in Hx. rewrite Hx. sst.
+    rewrite !orb_false_r. reflexivity. }
+  assert (PR : PI sR) by (destruct P1; constructor; assumption).
+  assert (HnR : next sR = N.succ id) by exact Hn.
+  assert (HcR : cbs sR = addref id id (cbs s)) by (unfold sR; sst; rewrite Hc; reflexivity).
+  assert (HBR : below sR).
+  { intros x Hx. rewrite HnR in Hx. assert (Hx' : id <= x) by lia. assert (Hxne : x <> id) by lia.
+    destruct (HB x Hx') as [F1 F2 F3 F4 F5]. constructor.
+    - intro t. rewrite (Hne x Hxne). apply F1.
+    - unfold sR. sst. rewrite Kc. exact F2.
+    - unfold sR. sst. rewrite Kp. exact F3.
+    - rewrite HcR, amem_addref, F4. apply N.eqb_neq in Hxne. rewrite Hxne. reflexivity.
+    - intro k'. rewrite HcR, aget_addref. destruct (N.eqb k' id); [| apply F5].
+      rewrite mem_sadd, F5. apply N.eqb_neq in Hxne. rewrite Hxne. reflexivity. }
+  assert (Hgood : good_info id sR inf).
+  { constructor; cbn [i_id i_vis inf].
+    - rewrite HnR. lia.
+    - rewrite Bf. sst. rewrite N.eqb_refl. apply orb_true_r.
+    - rewrite Bf. unfold prep_bits. rewrite N.eqb_refl. sst. rewrite orb_true_r. reflexivity.
+    - rewrite HcR, aget_addref, N.eqb_refl, mem_sadd, N.eqb_refl. reflexivity.
+    - intros P HP. rewrite Bf. unfold prep_bits. rewrite N.eqb_refl. sst.
+      assert (Hm : mem P vis = true) by (apply mem_In; exact HP). rewrite Hm.
+      destruct (pcache s) as [|q pc] eqn:Epc.
+      + destruct (Halive P HP) as [_ Hpc]. try rewrite Epc in Hpc. discriminate Hpc.
+      + sst. rewrite !orb_true_r. reflexivity. }
+  destruct (deferred_core_spec spp nkp spd nkd rp rd [] id [] name inf sR Hp Hd Hnk PR HBR)
+    as [r2 [s2 [Hdc [D [K2 C2]]]]].
+  { intros a []. }
+  { rewrite HnR. lia. }
+  { exact Hgood. }
+  { intros []. }
+  cbn [i_id inf] in D.
+  assert (HfR : fault sR = k) by exact Hf. rewrite HfR in C2.
+  (* the purge *)
+  pose proof (st_pi _ _ _ _ D) as P2.
+  destruct (purge_ids_spec (aget id (cbs s2)) s2 P2) as [s3 [Hpg [P3 [R3 [Ks3 B3]]]]].
+  set (s4 := up_cbs (aremove id) s3).
+  assert (Hrun4 : root_core C um owner vis name np rp rd s =
+                  (match r2 with Val a => Val a | Exn e => Exn (annotate C [LName name] e) end, s4)).
+  { unfold root_core, wrap. cbn [root_purge C]. apply map_exn_run.
+    rewrite (bind_val _ _ s id s1 Hrun). fold inf.
+    apply try_finally_run with (s1 := s3); [| reflexivity].
+    rewrite (bind_val _ _ s1 tt (up_cbs (addref id id) s1)) by reflexivity.
+    rewrite (bind_val _ _ _ tt sR) by reflexivity.
+    apply try_finally_run with (s1 := s2); [exact Hdc | exact Hpg]. }
+  eexists. eexists. split; [exact Hrun4|].
+  (* members of the log are ids of this tree *)
+  assert (Hlog_ge : forall x, mem x (aget id (cbs s2)) = true -> id <= x).
+  { intros x Hx. destruct (st_cbs_new _ _ _ _ D id x eq_refl Hx) as [H|H].
+    - rewrite HcR, aget_addref, N.eqb_refl, mem_sadd in H. apply orb_true_iff in H. destruct H as [H|H].
+      + apply N.eqb_eq in H. subst x. apply N.le_refl.
+      + rewrite (fr_cbs id s Hfr id) in H || (pose proof (fr_cbs_key id s Hfr) as Hk; apply amem_false_alookup in Hk;
+          unfold aget in H; rewrite Hk in H); discriminate.
+    - rewrite HnR in H. lia. }
+  assert (Hold : forall x, x < id -> forall t, bit t x s3 = bit t x s).
+  { intros x Hx t. rewrite B3.
+    assert (Hnl : mem x (aget id (cbs s2)) = false).
+    { destruct (mem x (aget id (cbs s2))) eqn:E; [| reflexivity]. apply Hlog_ge in E. lia. }
+    rewrite Hnl. sst. rewrite andb_true_r.
+    rewrite (st_frozen _ _ _ _ D x); [| rewrite HnR; lia | lia]. apply Hne. lia. }
+  assert (Hnew : forall x, id <= x -> forall t, bit t x s3 = false).
+  { intros x Hx t. destruct (bit t x s3) eqn:E; [| reflexivity]. exfalso.
+    rewrite B3 in E. apply andb_true_iff in E. destruct E as [E2 E3].
+    assert (HL : mem x (aget id (cbs s2)) = true).
+    { destruct (N.eq_dec x id) as [->|Hxne].
+      - eapply (st_cbs_mono _ _ _ _ D); [reflexivity|]. apply Hgood.
+      - apply (st_logged _ _ _ _ D x) with (t := t); [rewrite HnR; lia | exact E2]. }
+    rewrite HL in E3. sst in E3. apply negb_true_iff in E3. apply orb_false_iff in E3. destruct E3 as [E3 E4].
+    apply negb_false_iff in E3.
+    destruct t; try discriminate E3.
+    - cbn [bit] in E2. rewrite E2 in E4. discriminate.
+    - cbn [bit] in E2. destruct (pi_refs s2 P2 P x E2) as [->|Ha]; [| rewrite Ha in E4; discriminate].
+      destruct (N.eq_dec P id) as [->|Hxne].
+      + assert (Hs : bit (TRef id) id sR = true).
+        { apply (st_shrink _ _ _ _ D id); [rewrite HnR; lia | exact E2]. }
+        rewrite Bf in Hs. unfold prep_bits in Hs. rewrite (Hfresh _ id (N.le_refl _)), Hidvis in Hs. sst in Hs.
+        rewrite !andb_false_r in Hs. discriminate.
+      + change (bit (TRef P) P s2 = true) in E2.
+        rewrite (st_noown _ _ _ _ D P) in E2; [discriminate | rewrite HnR; lia]. }
+  assert (Hc4 : forall k', alookup k' (cbs s4) = alookup k' (cbs s)).
+  { intro k'. unfold s4. sst. rewrite alookup_aremove, (sr_cbs _ _ R3). destruct (N.eqb k' id) eqn:E.
+    - apply N.eqb_eq in E. subst k'. symmetry. apply amem_false_alookup. apply (fr_cbs_key id s Hfr).
+    - rewrite (st_cbs_other _ _ _ _ D k'); [| intro H; inversion H; subst; rewrite N.eqb_refl in E; discriminate].
+      rewrite HcR, alookup_addref, E. reflexivity. }
+  assert (Hn4 : next s4 = next s2) by (unfold s4; sst; apply R3).
+  assert (Hle : N.succ id <= next s2) by (rewrite <- HnR; apply D).
+  split; [| split].
+  - constructor.
+    + destruct P3; constructor; assumption.
+    + intros x Hx. rewrite Hn4 in Hx.
+      assert (HB3 : below s3).
+      { eapply below_shrink; [apply (st_below _ _ _ _ D) | apply R3 | apply R3 | exact Ks3 |].
+        intros t y Hy. rewrite B3 in Hy. apply andb_true_iff in Hy. tauto. }
+      rewrite <- (sr_next _ _ R3) in Hx. destruct (HB3 x Hx) as [F1 F2 F3 F4 F5]. constructor.
+      * intro t. apply F1.
+      * exact F2.
+      * exact F3.
+      * unfold s4. sst. rewrite amem_aremove, F4. apply andb_false_r.
+      * intro k'. unfold s4. sst. rewrite aget_aremove. destruct (N.eqb k' id); [reflexivity | apply F5].
+    + rewrite Hn4. fold id. lia.
+    + intros x Hx _ t. apply (Hold x Hx t).
+    + intros x Hx t Ht. rewrite <- (Hold x Hx t). exact Ht.
+    + intros x Hx t Ht. fold id in Hx. change (bit t x s4) with (bit t x s3) in Ht. rewrite (Hnew x Hx t) in Ht. discriminate.
+    + intros x Hx. fold id in Hx. change (bit (TRef x) x s3 = false). apply (Hnew x Hx).
+    + intros k' _. apply Hc4.
+    + intros r x _ Hm. unfold aget in *. rewrite Hc4. exact Hm.
+    + intros r x _ Hm. left. unfold aget in *. rewrite Hc4 in Hm. exact Hm.
+  - eapply stk_trans; [exact K1|]. eapply stk_trans; [split; reflexivity|]. eapply stk_trans; [exact K2|].
+    split; [rewrite <- (sr_meta _ _ R3) | rewrite <- (sr_rctx _ _ R3)]; reflexivity.
+  - assert (Hf4 : fault s4 = fault s2) by (unfold s4; sst; apply R3).
+    destruct (sp_deferred um [] name (spp false) spd k) as [k'|ex']; cbn [ctl sp_map] in *.
+    + destruct C2 as [[a Ha] Hf2]. subst r2. split; [eauto | rewrite Hf4; exact Hf2].
+    + destruct C2 as [Ha Hf2]. subst r2. split; [reflexivity | rewrite Hf4; exact Hf2].
 Qed.
 End Fixed.
